@@ -989,6 +989,8 @@ class TreeTransform(Generic[TreeFnT]):
     for fn in self.agg_fns:
       non_dict_keys, dict_keys = mit.partition(_is_dict, fn.output_keys)
       result.update(itertools.chain(non_dict_keys, *dict_keys))
+    # An output assigned to SKIP is dropped, it is not a key of the outputs.
+    result.discard(tree.Key.SKIP)
     return result
 
   def _check_duplicate_output_keys(self, output_keys: TreeMapKeys):
@@ -1009,7 +1011,12 @@ class TreeTransform(Generic[TreeFnT]):
   ):
     """Checks the assign keys are valid."""
     non_dict_keys, dict_keys = mit.partition(_is_dict, assign_keys)
-    new_keys_list = list(itertools.chain(non_dict_keys, *dict_keys))
+    # An output assigned to SKIP is dropped: it is not a key and can repeat.
+    new_keys_list = [
+        k
+        for k in itertools.chain(non_dict_keys, *dict_keys)
+        if k != tree.Key.SKIP
+    ]
     new_keys = set(new_keys_list)
     if len(new_keys) != len(new_keys_list):
       raise KeyError(f'Duplicate output_keys within {assign_keys}')
